@@ -120,6 +120,16 @@ func (P *Prog) buildQuery(o *Obligation) (asserts []*Term, stats string) {
 	donePair := map[string]bool{}
 	total := 0
 	lazies := append([]*LazyForall{}, o.Lazy...)
+	{
+		var names []string
+		for n := range entryHeapFacts {
+			names = append(names, n)
+		}
+		sort.Strings(names)
+		for _, n := range names {
+			lazies = append(lazies, entryHeapFacts[n])
+		}
+	}
 	// index terms of the goal itself are always used as instantiation points
 	goalTerms := map[int]bool{}
 	for _, srt := range []*Sort{IntSort, RefSort} {
